@@ -355,6 +355,9 @@ MonApply(m, e) ==
          IN AddViol(m1, WaitViol(m1, TRUE) \cup missing)
     [] e.ev \in {"topo", "refreshed"} -> [m EXCEPT !.topoSeen = TRUE]
     [] e.ev = "pause" -> [m EXCEPT !.slow = @ \cup {e.c}]
+    \* a connect to a node failed (the node is down, or the machine so overloaded that the connect timed out): from here
+    \* on an error reply may be the environment's doing
+    [] e.ev = "envfault" -> [m EXCEPT !.connLost = TRUE]
     [] e.ev = "dead" -> [m EXCEPT !.dead = TRUE, !.viol = @ \cup {<<"DEAD", "", 0, "proxy-died">>}]
     [] OTHER -> m
 =============================================================================
